@@ -175,3 +175,17 @@ def run(ctx):
     absent = [i for i, j, s_ in ad.stmts() if s_["k"] == "assign" and s_["place"] in adds and any(re.match(r"^!V1:get\(matcher,", g) for g in guard_strs(ad, i))]
     res.check(bool(absent) and all(op_int(s_["rv"]["op"]) == 0 for i, j, s_ in ad.stmts() if i in absent and s_["k"] == "assign" and s_["place"] in adds and s_["rv"]["k"] == "use"),
               "R6.7", "condition-false-when-absent", ad.where(), "a condition on an argument without matches is false", "a conditional default fires although the argument it depends on is not in the matches")
+
+
+    # ---- R6.3b the environment value reaches react unchanged, for every argument
+    if has_env:
+        ae = fx.body("clap_builder::parser::parser::Parser::add_env")
+        rc_ = ae.calls_to(r"Parser::react$")
+        for c in rc_:
+            item = expr(ae, c.args[3])
+            res.check(item == "next(into_iter(get_arguments(self.cmd)))#Some.0", "R6.3", "env-every-argument", c.where(), "add_env visits every argument of the command", "add_env iterates %s" % item[:80])
+            tos = [t for t in ae.calls_to(r"ToOwned>?::to_owned$|to_os_string$|Clone>?::clone$") if ae.block_dominates(t.bb, c.bb)]
+            okv = len(tos) == 1 and expr(ae, tos[0].args[0]) == item + ".env#Some.0.1#Some.0"
+            others = [x for x in ae.calls() if not sp_macro(x.sp) and x.callee_q and x.callee_q.startswith("clap_builder::") and not x.is_(r"Command::get_arguments$", r"ArgMatcher::contains$", r"Parser::react$")]
+            res.check(okv and not others, "R6.3", "env-value-verbatim", c.where(), "react receives vec![env value of that argument]",
+                      "the environment value is transformed or taken from elsewhere before react (%s; other calls %s)" % ([expr(ae, t.args[0])[:60] for t in tos], [x.callee_q.rsplit("::", 1)[1] for x in others]))
